@@ -332,6 +332,9 @@ var strPool = []string{"", "abc", "ABC", "aBc", "ab", "bc", "b", "a b", " abc", 
 	"héllo", "HÉLLO", "日本語", "x", "X", "zz", "Zz", "1.0.0", "true", "null", "a.b", "[1]", "a,b", "(a)", "Ω", "ω", "Å", "å", "é", "É", "ab\tcd", "line\nbreak", "Ⱥ", "ⱥ", "ẞ", "ß", "line1\r\nline2", "\r\n", "a\rb", "\n", "tab\there ", "Ω", "Å", "\u2028x", "nul\x00byte", "\x7f", "𝒳𝒴", "ＡＢ", "ǰ", "ŉ", "<nil>", "<NIL>", "Ⅷ", "ⅷ", "Ⓐ", "ⓐ", "(", ")", "((", "a(b", "x )", "x  z", "x !", "x 5", "a\tb  c", "10", "1.5", "1.2.3", "5",
 	"1.10.0", "1.9.0", "1.0.0-alpha", "1.0.0", "1.0.0-2", "1.0.0-10", "1.0.0+build.1", "1.0.0+build.2", "Doe, John", "y,z", ","}
 
+// bodies whose proper prefixes are also suffixes / infixes of them
+var overlapPool = []string{"aab", "abab", "aaba", "cocola", "bingbot", "abcabd", "ÉéÉx", "aAb", "xyxyz", "aa", "abaab", "ßßs", "1.1.0", "a a b"}
+
 // bodies with the escape sequences the grammar allows (the engine keeps them verbatim: no unescaping). Used for the
 // elements of string lists only: C04 leaves literals with backslashes outside its claim.
 var escPool = []string{`a\"`, `\"`, `\\`, `x\"y`, `\n`, `\u00e9`, `q\\`, `\"\"`, `\/`, `\"a`, `a\\\"`}
@@ -416,6 +419,11 @@ var allowEscapedScalars = true
 func genBody(r *RNG) string {
 	if allowEscapedScalars && r.Chance(1, 15) {
 		return pick(r, escPool)
+	}
+	if r.Chance(1, 12) {
+		// a body that overlaps itself (its first characters occur again inside it): what a hand-written substring /
+		// prefix / suffix search has to back up over
+		return pick(r, overlapPool)
 	}
 	if r.Chance(8, 10) {
 		return pick(r, strPool)
@@ -919,6 +927,24 @@ func nearValue(r *RNG, leaf *Node, idc *int) *AV {
 		case 8:
 			s = "a" + body + "b"
 		case 9:
+			if r.Chance(1, 2) {
+				// a partial match that breaks off, with the real occurrence starting inside it (or right after it)
+				rs := []rune(body)
+				if len(rs) > 1 {
+					j := 1 + r.Intn(len(rs)-1)
+					s = string(rs[:j]) + body
+					if r.Chance(1, 4) {
+						s = body + string(rs[j:])
+					}
+					if r.Chance(1, 3) {
+						s = pick(r, []string{"x", "", string(rs[:1])}) + s + pick(r, []string{"", "y", string(rs[len(rs)-1:])})
+					}
+					if r.Chance(1, 4) {
+						s = swapCase(s)
+					}
+					break
+				}
+			}
 			s = pick(r, strPool)
 		case 10:
 			// invalid UTF-8 around the body
